@@ -78,7 +78,7 @@ func (e *Engine) checkWriters(ws WriterSpec) (offenders []string, sites int) {
 				if hit {
 					sites++
 					t := funcTarget(fn)
-					if !allowed[t] && !allowed[shortPkg(funcPkgPath(fn))+"."+t] {
+					if !allowed["*"] && !allowed[t] && !allowed[shortPkg(funcPkgPath(fn))+"."+t] {
 						offenders = append(offenders, shortPkg(funcPkgPath(fn))+"."+t+" ("+e.pos(ins.Pos())+")")
 					}
 				}
